@@ -349,6 +349,300 @@ theorem block_roundtrip_sem_partial (crc : Crc) (syms : List Bytes) (series : Li
     simp only [List.append_assoc] at this ⊢
     exact this
 
+theorem indexHeader_length : indexHeader.length = 5 := rfl
+
+theorem strOf_length (syms : List Bytes) (h : ∀ s ∈ syms, s.length < 9223372036854775808) (n : Nat) :
+    (strOf syms n).length < 9223372036854775808 := by
+  unfold strOf
+  cases hn : syms[n]? with
+  | none => simp
+  | some s => simp only [Option.getD_some]; exact h s (List.mem_of_getElem? hn)
+
+/-- names and values of the postings lists are symbols (or the empty all-postings key) -/
+theorem allPLists_names (syms : List Bytes) (series : List Series) (ids : List Nat) (p : PList)
+    (hp : p ∈ allPLists syms series ids) :
+    (p.name = [] ∧ p.value = []) ∨ ∃ n v, n ∈ namesOf series ∧ p.name = strOf syms n ∧ p.value = strOf syms v := by
+  unfold allPLists at hp
+  simp only [List.mem_cons, List.mem_flatMap, List.mem_map] at hp
+  rcases hp with hp | ⟨n, hn, v, _, hv⟩
+  · left; subst hp; exact ⟨rfl, rfl⟩
+  · right; subst hv; exact ⟨n, v, hn, rfl, rfl⟩
+
+theorem namesOf_valid (syms : List Bytes) (series : List Series)
+    (h : ∀ s ∈ series, SeriesWF (lookupIn syms) (strOf syms) s) (n : Nat) (hn : n ∈ namesOf series) :
+    n < syms.length := by
+  unfold namesOf at hn
+  have := mem_sortUniq hn
+  simp only [List.mem_flatMap, List.mem_map] at this
+  obtain ⟨s, hs, p, hp, hpn⟩ := this
+  have := ((h s hs).labels p hp).2.2.1
+  subst hpn
+  unfold lookupIn at this
+  by_cases hlt : p.1 < syms.length
+  · exact hlt
+  · rw [List.getElem?_eq_none (by omega)] at this
+    simp at this
+
+/-- `newReader` succeeds on the file the writer produced and holds the symbols and the whole
+    postings offset table. -/
+theorem openIndex_written (crc : Crc) (syms : List Bytes) (series : List Series) (h : BlockWF syms series)
+    (hfile : (writeIndex crc syms series).bytes.length < 4294967296) :
+    openIndex crc (writeIndex crc syms series).bytes =
+      .ok ⟨(writeIndex crc syms series).bytes, 2, (writeIndex crc syms series).toc, syms, tableOf crc syms series⟩ := by
+  obtain ⟨htoc, hsyms, _, _⟩ := block_roundtrip_sem_partial crc syms series h (by omega)
+  have hb := writeIndex_bytes crc syms series
+  have hb2 := writeIndex_bytes2 crc syms series
+  -- header
+  have h5 : ¬ (writeIndex crc syms series).bytes.length < 5 := by
+    rw [hb]; simp only [List.length_append, indexHeader_length]; omega
+  have hmagic : be32At (writeIndex crc syms series).bytes 0 = magicIndex := by
+    rw [hb]
+    have := be32At_put [] ([2] ++ (symbolTable crc syms ++
+      ((placeSeries crc (indexHeader.length + (symbolTable crc syms).length) series).1 ++
+        (indexMid crc syms series ++ encToc crc (writeIndex crc syms series).toc)))) magicIndex (by decide)
+    simp only [indexHeader, List.append_assoc, List.nil_append, List.length_nil] at this ⊢
+    exact this
+  have hver : (((writeIndex crc syms series).bytes.drop 4).head?.getD 0).toNat = 2 := by
+    rw [hb]; rfl
+  -- postings offset table
+  have hlen2 := hfile
+  rw [hb2] at hlen2
+  simp only [List.length_append, offsetTable, sect, putBE32_length, crcBytes_length] at hlen2
+  have htable : readOffsetTable crc (writeIndex crc syms series).bytes (writeIndex crc syms series).toc.postingsTable
+      = .ok (tableOf crc syms series) := by
+    rw [← beforeTable_length, hb2]
+    apply offset_table_roundtrip
+    · intro e he
+      unfold tableOf at he
+      simp only [List.mem_map] at he
+      obtain ⟨e0, he0, rfl⟩ := he
+      obtain ⟨hoff, p, hp, hn, hv⟩ := placePostings_mem crc _ 0 e0 he0
+      have hpa := pstartOf_add crc syms series
+      refine ⟨?_, ?_, ?_⟩
+      · simp only [hn]
+        rcases allPLists_names syms series _ p hp with ⟨h1, _⟩ | ⟨n, v, _, h1, _⟩
+        · rw [h1]; decide
+        · rw [h1]; exact strOf_length syms h.strs n
+      · simp only [hv]
+        rcases allPLists_names syms series _ p hp with ⟨_, h1⟩ | ⟨n, v, _, _, h1⟩
+        · rw [h1]; decide
+        · rw [h1]; exact strOf_length syms h.strs v
+      · unfold U64
+        simp only
+        unfold ppOf at hpa
+        omega
+    · have := flatMap_enc_length_ge (tableOf crc syms series)
+      simp only [offsetTableContent, List.length_append, putBE32_length] at hlen2
+      omega
+    · omega
+    · omega
+  -- label names are symbols
+  have hall : (tableOf crc syms series).all (fun e => e.name.isEmpty || syms.contains e.name) = true := by
+    rw [List.all_eq_true]
+    intro e he
+    unfold tableOf at he
+    simp only [List.mem_map] at he
+    obtain ⟨e0, he0, rfl⟩ := he
+    obtain ⟨_, p, hp, hn, _⟩ := placePostings_mem crc _ 0 e0 he0
+    simp only [hn]
+    rcases allPLists_names syms series _ p hp with ⟨h1, _⟩ | ⟨n, v, hnn, h1, _⟩
+    · rw [h1]; rfl
+    · rw [h1]
+      have hlt := namesOf_valid syms series h.series n hnn
+      have : strOf syms n ∈ syms := by
+        unfold strOf
+        rw [List.getElem?_eq_getElem hlt]
+        simp
+      simp [this]
+  unfold openIndex
+  rw [if_neg h5, if_neg (by rw [hmagic]; simp)]
+  simp only [hver]
+  rw [if_neg (by decide), htoc]
+  simp only
+  rw [hsyms]
+  simp only
+  rw [htable]
+  simp only [hall, if_true]
+
+
+/-- Distinct postings lists have distinct (name, value) keys. -/
+def KeysDistinct (ps : List PList) : Prop :=
+  ∀ (i j : Nat) (p q : PList), ps[i]? = some p → ps[j]? = some q → p.name = q.name → p.value = q.value → i = j
+
+/-- `Reader.Postings(name, value)` on the written file returns exactly the list the writer stored
+    under that key (given that keys are distinct, see `allPLists_keys_distinct`). -/
+theorem postings_written (crc : Crc) (syms : List Bytes) (series : List Series) (h : BlockWF syms series)
+    (hfile : (writeIndex crc syms series).bytes.length < 4294967296)
+    (hkeys : KeysDistinct (allPLists syms series (writeIndex crc syms series).ids))
+    (k : Nat) (p : PList) (hp : (allPLists syms series (writeIndex crc syms series).ids)[k]? = some p) :
+    Reader.postings crc ⟨(writeIndex crc syms series).bytes, 2, (writeIndex crc syms series).toc, syms,
+      tableOf crc syms series⟩ p.name p.value = .ok p.ids := by
+  have hp' : (allPLists syms series
+      (placeSeries crc (indexHeader.length + (symbolTable crc syms).length) series).2)[k]? = some p := hp
+  obtain ⟨e, a, b, he, hn, hv, hab, hoff⟩ := placePostings_spec crc _ 0 k p hp'
+  -- the table entry at index k
+  have hek : (tableOf crc syms series)[k]? = some { e with off := e.off + pstartOf crc syms series } := by
+    unfold tableOf ppOf
+    rw [List.getElem?_map, he]; rfl
+  have hfind : (tableOf crc syms series).find? (fun e => decide (e.name = p.name ∧ e.value = p.value))
+      = some { e with off := e.off + pstartOf crc syms series } := by
+    apply find?_unique_index _ _ k _ hek
+    · simp [hn, hv]
+    · intro j y hj hy
+      unfold tableOf ppOf at hj
+      rw [List.getElem?_map] at hj
+      cases hj0 : (placePostings crc 0 (allPLists syms series
+          (placeSeries crc (indexHeader.length + (symbolTable crc syms).length) series).2)).2[j]? with
+      | none => rw [hj0] at hj; simp at hj
+      | some y0 =>
+        rw [hj0] at hj
+        simp only [Option.map_some, Option.some.injEq] at hj
+        have hjlt : j < (allPLists syms series
+            (placeSeries crc (indexHeader.length + (symbolTable crc syms).length) series).2).length := by
+          have := (List.getElem?_eq_some_iff.mp hj0).1
+          rw [placePostings_length] at this
+          exact this
+        have hq := List.getElem?_eq_getElem hjlt
+        obtain ⟨e', _, _, he', hn', hv', _, _⟩ := placePostings_spec crc _ 0 j _ hq
+        rw [hj0] at he'
+        cases he'
+        subst hj
+        simp only [decide_eq_true_eq] at hy
+        exact hkeys j k _ p hq hp' (by rw [← hn']; exact hy.1) (by rw [← hv']; exact hy.2)
+  unfold Reader.postings
+  simp only [hfind]
+  -- the list sits at that offset
+  have hb2 := writeIndex_bytes2 crc syms series
+  have hpa := pstartOf_add crc syms series
+  have hfile2 := hfile
+  rw [hb2] at hfile2
+  simp only [List.length_append] at hfile2
+  unfold ppOf at hpa
+  rw [hab] at hpa
+  simp only [List.length_append] at hpa
+  have hpre : (indexHeader ++ symbolTable crc syms ++
+      (placeSeries crc (indexHeader.length + (symbolTable crc syms).length) series).1 ++
+      zeros (padLen 4 (indexHeader.length + (symbolTable crc syms).length +
+        (placeSeries crc (indexHeader.length + (symbolTable crc syms).length) series).1.length)) ++ a).length
+      = e.off + pstartOf crc syms series := by
+    simp only [pstartOf, List.length_append, zeros, List.length_replicate] at hoff ⊢
+    omega
+  have hfileeq : (writeIndex crc syms series).bytes =
+      (indexHeader ++ symbolTable crc syms ++
+        (placeSeries crc (indexHeader.length + (symbolTable crc syms).length) series).1 ++
+        zeros (padLen 4 (indexHeader.length + (symbolTable crc syms).length +
+          (placeSeries crc (indexHeader.length + (symbolTable crc syms).length) series).1.length)) ++ a) ++
+      postingsList crc p.ids ++
+      (b ++ offsetTable crc (tableOf crc syms series) ++ encToc crc (writeIndex crc syms series).toc) := by
+    rw [hb2]
+    unfold beforeTable ppOf
+    rw [hab]
+    simp only [List.append_assoc]
+  rw [hfileeq, ← hpre]
+  have hplen : (postingsList crc p.ids).length = 4 + (4 + 4 * p.ids.length) + 4 := by
+    simp only [postingsList, sect, postingsContent, List.length_append, putBE32_length, crcBytes_length,
+      flatMap_putBE32_length]
+  apply postings_list_roundtrip
+  · intro id hid
+    have hmem := allPLists_ids_subset syms series _ p (List.mem_of_getElem? hp') id hid
+    have := placeSeries_ids_bound crc series _ id hmem
+    simp only [beforeTable, List.length_append] at hfile2
+    omega
+  · omega
+  · rw [hpre]; unfold pstartOf at hpa ⊢; omega
+
+
+theorem valuesOf_valid (syms : List Bytes) (series : List Series)
+    (h : ∀ s ∈ series, SeriesWF (lookupIn syms) (strOf syms) s) (n v : Nat) (hv : v ∈ valuesOf series n) :
+    v < syms.length := by
+  unfold valuesOf at hv
+  have := mem_sortUniq hv
+  simp only [List.mem_flatMap, List.mem_map, List.mem_filter] at this
+  obtain ⟨s, hs, p, ⟨hp, _⟩, hpv⟩ := this
+  have := ((h s hs).labels p hp).2.2.2
+  subst hpv
+  unfold lookupIn at this
+  by_cases hlt : p.2 < syms.length
+  · exact hlt
+  · rw [List.getElem?_eq_none (by omega)] at this
+    simp at this
+
+theorem keysDistinct_of_pairwise (ps : List PList)
+    (h : ps.Pairwise fun p q => ¬ (p.name = q.name ∧ p.value = q.value)) : KeysDistinct ps := by
+  intro i j p q hp hq hn hv
+  rw [List.pairwise_iff_getElem] at h
+  obtain ⟨hi, rfl⟩ := List.getElem?_eq_some_iff.mp hp
+  obtain ⟨hj, rfl⟩ := List.getElem?_eq_some_iff.mp hq
+  rcases Nat.lt_trichotomy i j with hlt | heq | hgt
+  · exact absurd ⟨hn, hv⟩ (h i j hi hj hlt)
+  · exact heq
+  · exact absurd ⟨hn.symm, hv.symm⟩ (h j i hj hi hgt)
+
+/-- The keys of the postings lists are pairwise distinct when the symbol table has no duplicates
+    (`AddSymbol` enforces a strictly increasing table) and label names are non-empty. -/
+theorem allPLists_keys_distinct (syms : List Bytes) (series : List Series) (ids : List Nat)
+    (h : BlockWF syms series) (hnd : syms.Nodup) (hne : ∀ n ∈ namesOf series, strOf syms n ≠ []) :
+    KeysDistinct (allPLists syms series ids) := by
+  apply keysDistinct_of_pairwise
+  unfold allPLists
+  rw [List.pairwise_cons]
+  constructor
+  · intro q hq
+    simp only [List.mem_flatMap, List.mem_map] at hq
+    obtain ⟨n, hn, v, _, rfl⟩ := hq
+    intro hc
+    exact hne n hn hc.1.symm
+  · rw [List.pairwise_flatMap]
+    constructor
+    · intro n hn
+      rw [List.pairwise_map]
+      apply List.Pairwise.imp_of_mem _ (sortUniq_sorted _)
+      intro a b ha hb hab hc
+      have hva := valuesOf_valid syms series h.series n a ha
+      have hvb := valuesOf_valid syms series h.series n b hb
+      have := strOf_inj syms hnd a b hva hvb hc.2
+      omega
+    · apply List.Pairwise.imp_of_mem _ (sortUniq_sorted _)
+      intro a b ha hb hab x hx y hy hc
+      simp only [List.mem_map] at hx hy
+      obtain ⟨_, _, rfl⟩ := hx
+      obtain ⟨_, _, rfl⟩ := hy
+      have hva := namesOf_valid syms series h.series a ha
+      have hvb := namesOf_valid syms series h.series b hb
+      have := strOf_inj syms hnd a b hva hvb hc.1
+      omega
+
+
+/-- Whole-file statement, second part: `newReader` accepts the written file; through the opened
+    reader every series, the all-postings list and the postings of every label pair in use read
+    back (file below 4 GiB, symbol table without duplicates — `AddSymbol` enforces strictly
+    increasing symbols —, non-empty label names). -/
+theorem block_roundtrip_reader_partial (crc : Crc) (syms : List Bytes) (series : List Series)
+    (h : BlockWF syms series) (hfile : (writeIndex crc syms series).bytes.length < 4294967296)
+    (hnd : syms.Nodup) (hne : ∀ n ∈ namesOf series, strOf syms n ≠ []) :
+    ∃ r, openIndex crc (writeIndex crc syms series).bytes = .ok r ∧ r.syms = syms ∧
+      (∀ (k : Nat) (s : Series) (id : Nat), series[k]? = some s → (writeIndex crc syms series).ids[k]? = some id →
+        r.series crc id = .ok (strsOf (strOf syms) s)) ∧
+      r.postings crc [] [] = .ok (writeIndex crc syms series).ids ∧
+      (∀ n v, n ∈ namesOf series → v ∈ valuesOf series n →
+        r.postings crc (strOf syms n) (strOf syms v) =
+          .ok (idsWith ((writeIndex crc syms series).ids.zip series) n v)) := by
+  refine ⟨_, openIndex_written crc syms series h hfile, rfl, ?_, ?_, ?_⟩
+  · intro k s id hs hid
+    exact (block_roundtrip_sem_partial crc syms series h (by omega)).2.2.2 k s id hs hid
+  · have hk := allPLists_keys_distinct syms series (writeIndex crc syms series).ids h hnd hne
+    exact postings_written crc syms series h hfile hk 0 ⟨[], [], (writeIndex crc syms series).ids⟩ (by simp [allPLists])
+  · intro n v hn hv
+    have hk := allPLists_keys_distinct syms series (writeIndex crc syms series).ids h hnd hne
+    have hmem : (⟨strOf syms n, strOf syms v, idsWith ((writeIndex crc syms series).ids.zip series) n v⟩ : PList)
+        ∈ allPLists syms series (writeIndex crc syms series).ids := by
+      unfold allPLists
+      simp only [List.mem_cons, List.mem_flatMap, List.mem_map]
+      exact Or.inr ⟨n, hn, v, hv, rfl⟩
+    obtain ⟨k, hk1, hk2⟩ := List.getElem_of_mem hmem
+    have := postings_written crc syms series h hfile hk k _ (by rw [List.getElem?_eq_getElem hk1, hk2])
+    exact this
+
 /-- The complete whole-file statement, NOT proved: it adds to `block_roundtrip_sem_partial` that
     `newReader` succeeds on the written file and that postings, label values and label names read
     back.  Proved pieces: `postings_list_roundtrip`, `offset_table_roundtrip` (the codecs of both
